@@ -21,7 +21,14 @@ KNOWN_FILE = os.path.join(VERIF, "known_findings.json")
 
 def load_known():
     with open(KNOWN_FILE) as fh:
-        return json.load(fh)
+        out = json.load(fh)
+    d = os.path.join(VERIF, "known_findings.d")     # per-property additions, merged at load
+    if os.path.isdir(d):
+        for name in sorted(os.listdir(d)):
+            if name.endswith(".json"):
+                with open(os.path.join(d, name)) as fh:
+                    out += json.load(fh)
+    return out
 
 
 def _match(where, cls):
@@ -81,9 +88,9 @@ class Ctx:
 
     # ---- trace validation (code -> spec) ----------------------------------
     def validate(self, module, events, shards=16, timeout=1800, cfg=None, env=None,
-                 count_traces=None):
+                 count_traces=None, group=None):
         verdicts, st = T.validate_events(module, events, self.work, shards=shards,
-                                         timeout=timeout, cfg=cfg, env=env)
+                                         timeout=timeout, cfg=cfg, env=env, group=group)
         self.states += st["states"]
         self.transitions += st["generated"]
         self.models.append({"module": module, "cfg": cfg or module + ".cfg",
